@@ -72,7 +72,7 @@ class Context:
         self.exhaustive = False
         self.counters = {}
         self._known = _load_known(prop)
-        self.max_violation_files = 5
+        self.max_violation_files = 10
 
     # ---- bookkeeping
     @property
